@@ -72,6 +72,7 @@ func genC01(seed uint64, tier string) *Plan {
 			p.Ops = append(p.Ops, Op{K: "adv", Dt: PickOne(r, advDts)})
 		}
 	}
+	maybeYield(r, p, 0.4)
 	return p
 }
 
